@@ -4,7 +4,7 @@ from .treecommon import D, ASSUME, finish, run_specs
 TEXT = ('bounded symbolic execution (irsym+z3) of TbfInteractionCounter<kernel> under the sequential executor: results identical to the unwrapped kernel (as forms in the symbolic payload) and the merged '
         'counters (documented merge: ReduceType::Reduce over applyToAllKernels) equal an oracle computed from the leaf index set only: leaves, parent-child links, transfer pairs of existing cells, '
         'n_a*n_b over adjacent leaf pairs, n(n-1) in-leaf - for every occupancy pattern x block size x grouping mode x upper level; counters of partial runs (flag subsets) move only for the operators that ran; '
-        'Counters::Reduce proved to be the field-wise sum for arbitrary (symbolic 64-bit) per-worker values under forked merge orders')
+        'Counters::Reduce proved to be the field-wise sum for arbitrary (symbolic 64-bit) per-worker values under forked merge orders; the increment of every operator call proved for symbolic call sizes up to 2^31 (1 / list length / |A|*|B| / n(n-1), 64-bit arithmetic)')
 
 
 def run(ctx):
@@ -17,8 +17,10 @@ def run(ctx):
                            executors='sequential executor; OpenMP executor with per-worker counter kernels under the mock runtime of C03 (4 threads, three schedules / worker-id policies)',
                            outside='the counter cannot be used with the target/source executor (its P2PTsm does not instantiate) - see DESIGN.md section 8 F8'))
     ctx.assumptions += ASSUME
-    run_specs(ctx, 'w_tree.cpp', 'h_c18', T, expect_reach=(200, 201, 202, 205, 206, 207, 208))
+    run_specs(ctx, 'w_tree.cpp', 'h_c18', T, expect_reach=(200, 201, 202, 205, 206, 207, 208), reserve=600)
     run_specs(ctx, 'w_tree.cpp', 'h_c18_reduce', [('reduce.symbolic', D(1, 2, 2, 1), [0, 0, 0, 0, 0, 0], 60, 'Counters::Reduce with 2-4 workers, every counter field an independent 64-bit symbol, forked merge orders')], expect_reach=(209, 210))
+    run_specs(ctx, 'w_tree.cpp', 'h_c18_calls', [('calls.symbolic', D(1, 2, 2, 1), [0, 0, 0, 0, 0, 0], 120, 'every operator call of the counter with symbolic 64-bit sizes (<= 2^31 per list / leaf): increment, other counters untouched, call forwarded')],
+              expect_reach=(215, 216, 217))
     from .C03 import OMP
     from .. import e2
     e2.run_configs(ctx, [dict(name='omp.d1.h4.n3', wrapper='w_omp.cpp', defines=D(1, 4, 3, 1), entry='h_c18_omp', args=[-2, -1, 0, -1, 0, 0], time_limit=240,
